@@ -288,15 +288,17 @@ func (c12) runOn(g *spec.Grammar, what string, injected bool, idx int) Outcome {
 		}
 	}
 	// CLI leg on a sample: the same verdict must come out of the real binary, as exit status + diagnostic
-	if o.Status == "held" && idx >= 0 && idx%40 == 7 {
+	// (residue 7: usable family members; 12: injected cases, mostly unusable; 33: random grammars)
+	if o.Status == "held" && idx >= 0 && (idx%40 == 7 || idx%40 == 12 || idx%40 == 33) {
 		dir := filepath.Join(scratch(), fmt.Sprintf("c12cli-%d-%d", os.Getpid(), idx))
 		os.MkdirAll(dir, 0755)
 		os.WriteFile(filepath.Join(dir, "g.y"), []byte(text), 0644)
 		args := []string{"generate", "go", "g.y", "out.go"}
-		if idx%80 == 7 {
+		if (idx/40)%2 == 0 {
 			args = []string{"generate", "typescript", "g.y", "out.ts"}
 		}
-		res := runCLI(20, 2*time.Minute, dir, args...)
+		// (the near-limit grammars of the size families take up to 100 CPU-seconds as typescript)
+		res := runCLI(600, 30*time.Minute, dir, args...)
 		_, statErr := os.Stat(filepath.Join(dir, args[len(args)-1]))
 		os.RemoveAll(dir)
 		o.count("eval:cli_runs", 1)
